@@ -174,6 +174,44 @@ def usesGradM (lower : String → String) : Method → Bool
   | .name m => usesGrad lower m
   | .callable => false
 
+/-- the pass-through arguments of `minimize`, as arbitrary Python values -/
+structure MinArgs (V : Type) where
+  args : V
+  method : V
+  hess : V
+  hessp : V
+  bounds : V
+  constraints : V
+  tol : V
+  callback : V
+  options : V
+
+/-- the keyword arguments of the inner call `spopt.minimize(min_func, x0=…, args=…, jac=…, …)` -/
+structure ScipyCall (V : Type) where
+  jac : Bool
+  args : V
+  method : V
+  hess : V
+  hessp : V
+  bounds : V
+  constraints : V
+  tol : V
+  callback : V
+  options : V
+
+/-- the inner call of `minimize`: `jac` from the routing, everything else handed on as it is — no
+    truth test, no default substituted (`tol=0.0`, `options={}`, `bounds=[]` arrive unchanged) -/
+def scipyCall {V : Type} (lower : String → String) (m : Method) (a : MinArgs V) : ScipyCall V :=
+  { jac := usesGradM lower m, args := a.args, method := a.method, hess := a.hess, hessp := a.hessp,
+    bounds := a.bounds, constraints := a.constraints, tol := a.tol, callback := a.callback,
+    options := a.options }
+
+/-- keywords of the inner calls, in source order -/
+def minimizeCallKeywords : List String :=
+  ["x0", "args", "jac", "method", "hess", "hessp", "bounds", "constraints", "tol", "callback", "options"]
+def minimizeScalarCallKeywords : List String :=
+  ["fun", "bracket", "bounds", "args", "method", "tol", "options"]
+
 /-- all solvers of `scipy.optimize.minimize` (lower case) and the ones that take no gradient -/
 def scipyMethods : List String :=
   ["nelder-mead", "powell", "cg", "bfgs", "newton-cg", "l-bfgs-b", "tnc", "cobyla", "cobyqa", "slsqp",
